@@ -19,6 +19,22 @@ CHECKS = {
    note='float32 rounding modelled by tolerance: 0 on the first step from a dyadic state with dyadic decay, 2^-20 relative otherwise, 2e-5 on the normalised codebook; cosine l2norm via a rational sqrt with error 2^-40.',
    technique='Coq proof (reals, induction over histories) + regenerated kernels/guards + stepwise re-synchronised correspondence evaluated in Coq (vm_compute over Q)',
    ref='DESIGN.md section 4 C03'),
+ 'C08': dict(
+   text='Theorems (Coq, axiom-free, generic in the scalar type, all configurations/oracles/histories): an initialised codebook is returned unchanged by every evaluation-mode call, every frozen training-mode call and every decode; '
+        'any history of pure operations is the identity on the state, and pure operations can be deleted from ANY interleaving with training steps without changing the final state; the only exception is the one-time k-means initialisation '
+        '(flag monotone, no operation re-initialises); eval calls and deterministic frozen calls return the same indices whatever the noise oracle; in-place optimiser and the shared-codebook end-of-forward block are pure when frozen / eval. '
+        'Tie: every guard on a state write is regenerated from the source; the list of all in-place write sites of every forward/decode method of every class is regenerated and pinned (FSQ/LFQ/SimVQ/ResidualFSQ/LFQ/SimVQ: none); '
+        'random walks over {train, eval, frozen, decode} on 29 module configurations with bit-exact state comparison, repetition of pure calls, and replay of codebook-bearing pure calls through the model.',
+   note='optimiser-internal state is not in state_dict and not observed; stochastic frozen training calls: only state purity is claimed.',
+   technique='Coq proof (case analysis on regenerated guards + induction over operation lists) + regenerated guards and write-site inventory + random-walk correspondence (bit-exact) with model replay in Coq',
+   ref='DESIGN.md section 4 C08'),
+ 'C11': dict(
+   text='Theorems (Coq, reals, all K / thresholds incl. fractional / reset / picks): codes at or above the threshold are untouched by expiry; a code below it takes the next sampled vector (the k-th pick, k = number of dead codes before it), its count is reset and its running sum = reset * vector; '
+        'if picks come from the pool so does every revived code; after expiry nothing is below the threshold when reset >= threshold; threshold 0 or nothing dead: identity; expiry is reached only in unfrozen training calls with automatic EMA; order EMA -> normalise -> expire. '
+        'Tie: comparison operator, early-outs, guards, the three writes and their order, pool construction and sampling branch regenerated from the source; every recorded call (Euclid / cosine, heads, reset values, per-layer and shared ResidualVQ) stepped through the model in Coq with the replacements read off the post-state and checked to be pool members.',
+   note='which pool vector is drawn is an oracle; pool validity under masks is C09.',
+   technique='Coq proof (list induction over the reals) + regenerated kernels/guards/dataflow + stepwise correspondence evaluated in Coq (vm_compute over Q)',
+   ref='DESIGN.md section 4 C11'),
  'C12': dict(
    text='Theorems (Coq, axiom-free, all n, cutoff, multiple_of, draws r): the layers that run are exactly the prefix {0..k-1} with k = min(n, round_up(r+1, m)); cutoff < k <= n; m | k or k = n; '
         'dropped layers form a suffix; every admissible k is produced by some in-contract draw; dropout is off when not training / indices supplied / dropout disabled / one layer. '
